@@ -18,6 +18,7 @@ import (
 	"os"
 	"runtime"
 	"sort"
+	"sync/atomic"
 	"testing"
 	"testing/synctest"
 	"time"
@@ -93,6 +94,9 @@ type sched struct {
 	hash  [20]byte
 	last  int
 }
+
+// Stuck is 1 while a run that exceeded its step budget has not returned yet.
+var Stuck int32
 
 var cur *sched // set before the bubble starts, cleared after; read by tasks
 
@@ -414,6 +418,10 @@ func (s *sched) loop() {
 		close(chosen.wake)
 		if s.res.Steps >= max {
 			s.res.Livelock = true
+			// from here on the tasks run unscheduled; if they still do not finish
+			// (a genuine endless loop) the worker's real-time watchdog reports the
+			// case as a livelock and restarts the process (see wproto.Out.Watch)
+			atomic.StoreInt32(&Stuck, 1)
 			s.freeRun()
 			break
 		}
@@ -481,6 +489,7 @@ func Run(t *testing.T, cfg Config, root func()) Result {
 			s.setDone()
 			<-schedDone
 			cur = nil
+			atomic.StoreInt32(&Stuck, 0)
 		})
 	})
 	return s.res
